@@ -148,7 +148,7 @@ def layouts(draw, tokens, cfg, comment, tightness=0):
     if not cfg.get("skipws", True) or tightness:
         styles = ["spaces", "mixed", "tight", "tight", "none", "none"]
     style = draw(st.sampled_from(styles))
-    pool = [" ", " ", " ", "\n", "\t", "  ", " \n ", ""]
+    pool = [" ", " ", " ", "\n", "\t", "  ", " \n ", "", "\r\n"]
     if comment in ("line", "both"):
         pool += [" # c\n", "#x\n"]
     if comment in ("block", "both"):
